@@ -144,6 +144,7 @@ func main() {
 		big := map[bool]string{false: "3000", true: "6000"}[thorough]
 		jobs = append(jobs, job{"burst", []string{"-seed", sd, "-mode", "small", "-n", map[bool]string{false: "6000", true: "30000"}[thorough]}},
 			job{"burst", []string{"-seed", sd, "-mode", "64k", "-n", big}})
+		jobs = append(jobs, job{"stalled", []string{"-seed", sd}})
 		// concurrent first send: time-boxed; thorough: two independent processes
 		fsBudget := map[bool]string{false: "8", true: "40"}[thorough]
 		jobs = append(jobs, job{"firstsend", []string{"-seed", sd, "-n", fsBudget}})
@@ -188,6 +189,11 @@ func main() {
 			pl = 65536
 		}
 		scenarioBurst(*seed, *mode, *count, pl)
+	case "stalled":
+		// on its own (used by the C10 check): the scenario in a child process, so that a crash is an outcome
+		runChild("stalled", []string{"-seed", sd}, 90*time.Second)
+	case "child-stalled":
+		scenarioStalledClients(*seed, 3*time.Second)
 	case "child-firstsend":
 		scenarioFirstSend(*seed, time.Duration(*count)*time.Second, 1000000)
 	case "child-stall10":
